@@ -235,7 +235,12 @@ class NpProxy:
         aa, bb = numpy.array(a, dtype=object), numpy.array(b, dtype=object)
         if aa.shape != bb.shape:
             return False
-        return all(bool(Sym.lift(x) == Sym.lift(y)) for x, y in zip(aa.flat, bb.flat))
+        def eq(x, y):
+            if type(x).__name__ == "SymFP" or type(y).__name__ == "SymFP":
+                return x == y  # IEEE equality
+            return Sym.lift(x) == Sym.lift(y)
+
+        return all(bool(eq(x, y)) for x, y in zip(aa.flat, bb.flat))
 
 
 NP = NpProxy()
